@@ -655,14 +655,15 @@ type c20CrashStats struct {
 // limited), closes and renames.  A process crash therefore leaves the target
 // untouched plus a temp file holding some prefix of the new bytes, or - after
 // the rename - the complete new file.  Clauses:
-//   temp   : for every prefix length k of the new bytes left in "<file>~", the
-//            target loads exactly as it does without the temp file;
-//   recover: with such a leftover present the next real saveEvents succeeds,
-//            removes the leftover and the target then holds the new bytes;
-//   torn   : (rename reached the disk before the data - fsync is skipped when
-//            one ran recently) every proper prefix of the target either fails
-//            to load cleanly or loads as the old or the new history, never as
-//            a third one, and never panics.
+//
+//	temp   : for every prefix length k of the new bytes left in "<file>~", the
+//	         target loads exactly as it does without the temp file;
+//	recover: with such a leftover present the next real saveEvents succeeds,
+//	         removes the leftover and the target then holds the new bytes;
+//	torn   : (rename reached the disk before the data - fsync is skipped when
+//	         one ran recently) every proper prefix of the target either fails
+//	         to load cleanly or loads as the old or the new history, never as
+//	         a third one, and never panics.
 func c20Crash(w *c20World, ops []c20Op, hist []byte, st *c20CrashStats) []c20Finding {
 	var fs []c20Finding
 	class := func(name, sample string) {
